@@ -162,6 +162,41 @@ theorem next_above_match_stream_error (n : Node) (p : NodeId) (h : NextAboveMatc
   have := h r hr
   split at hrq <;> (subst hrq; (try dsimp only); omega)
 
+/-- a replication round never touches `match_index` or the peer set: ids and match indexes come out as they went in -/
+theorem match_unchanged_round (me : NodeId) (log : Log) (term commit lastBefore cap : Nat) (newEs : Log) :
+    ∀ (ps : List Peer) (sid : Nat),
+      (replicatePeers me log term commit lastBefore cap newEs ps sid).1.map (fun p => (p.id, p.mtch))
+        = ps.map (fun p => (p.id, p.mtch)) := by
+  intro ps
+  induction ps with
+  | nil => intro sid; simp [replicatePeers]
+  | cons q qs ih =>
+    intro sid
+    simp only [replicatePeers, List.map_cons]
+    congr 1
+    · split <;> rfl
+    · exact ih _
+
+/-- `handle_peer_stream_error` never touches `match_index` or the peer set -/
+theorem match_unchanged_stream_error (n : Node) (p : NodeId) :
+    (onStreamError n p).peers.map (fun q => (q.id, q.mtch)) = n.peers.map (fun q => (q.id, q.mtch)) := by
+  simp only [onStreamError, updatePeer, List.map_map]
+  apply List.map_congr_left
+  intro q _
+  simp only [Function.comp]
+  split <;> rfl
+
+/-- `handle_peer_stream_error` puts the peer exactly at the floor `match_index + 1` — the value below which no
+    response handling can move it (`next_above_match_response`); this is the floor the F32 witness is stuck behind -/
+theorem stream_error_floor (n : Node) (p : NodeId) :
+    ∀ q ∈ (onStreamError n p).peers, q.id = p → q.next = q.mtch + 1 := by
+  intro q hq hid
+  simp only [onStreamError, updatePeer, List.mem_map] at hq
+  obtain ⟨r, hr, hrq⟩ := hq
+  split at hrq
+  · subst hrq; rfl
+  · next hne => subst hrq; simp [hid] at hne
+
 /-- a majority of grants received first wins the election (`broadcast_vote_requests`) -/
 theorem tally_won (n : Nat) (req : VoteReq) : ∀ (grants : List VoteResp) (rest : List VoteResp) (s : Nat),
     (∀ r ∈ grants, r.granted = true) → n - 1 ≠ 0 → s + grants.length > n / 2 →
